@@ -42,9 +42,9 @@ CHECKS = {
  "C07": ("RunnerLab", "PBT with interval-exclusion oracle in stream, callback log and dispatch hook (H2) under lazy delivery, delayed serial retries and harness-chosen schedules incl. sleeping past retry deadlines; a second campaign applies the stream oracle to the crate built with its `tracing` feature (vtrace)",
          "No foreign scenario event / user callback / dispatch inside any serial attempt, for generated mixes of serial and concurrent scenarios, lazy parsers, delayed retries; exhaustive schedules of small cases.",
          "Retry deadlines use real time; the driver may sleep past them as a schedule action.", "6/C07"),
- "C08": ("RunnerLab", "PBT with dispatch-cut oracle (H2 batches vs H3 observation of the first final failure), bracket closure predicate and metamorphic fail-fast/normal pair",
+ "C08": ("RunnerLab", "PBT with dispatch-cut oracle (H2 batches vs the H4 announcement and the H3 observation of the first final failure), bracket closure predicate and metamorphic fail-fast/normal pair",
          "After the main loop observed a final failure nothing is dispatched; everything started finishes; brackets close; failure-free runs equal normal runs (metamorphic).",
-         "Uses hooks H2/H3 for the dispatch order (no shared clock between stream and dispatch).", "6/C08"),
+         "Uses hooks H2/H3/H4 for the dispatch order (no shared clock between stream and dispatch).", "6/C08"),
  "C09": ("RunnerLab", "PBT with invariants over World-instance groups of the callback log (instance ids, mutation counters, hook arguments, ScenarioFinished reason) joined with the attempt model",
          "World identity / state threading / hook contract checked from an instrumented World and hooks for generated shapes, failures in hooks and World::new, interleaved attempts.",
          "Attribution of background-step callbacks through World ids.", "6/C09"),
@@ -104,7 +104,7 @@ manifest = {
     ],
     "checks": [entry(p) for p in all_ids if p in CHECKS],
     "not_applicable": [{"property_id": p, "reason": "check not built yet in this revision of /verif (planned, see DESIGN.md section 6)"} for p in all_ids if p not in CHECKS],
-    "notes": "All checks: ./check <ID> quick|thorough ; exit 0 held / 1 VIOLATION / 2 harness error or inconclusive. Known findings: /verif/known_findings.json. fix: commits in /repo: 206d04b 547dd40 fb649a0 8922cb4 611e938 2cff8d7 (DESIGN.md section 8).",
+    "notes": "All checks: ./check <ID> quick|thorough ; exit 0 held / 1 VIOLATION / 2 harness error or inconclusive. Known findings: /verif/known_findings.json. fix: commits in /repo: 206d04b 547dd40 fb649a0 8922cb4 611e938 2cff8d7 1aec4d9 (DESIGN.md section 8).",
 }
 json.dump(manifest, open("/verif/MANIFEST.json", "w"), indent=1)
 print("wrote MANIFEST.json with", len(manifest["checks"]), "checks")
